@@ -421,8 +421,7 @@ def r5_state_machine(ctx, f, rep, eff):
                     okmap = q.try_ok_of(p, i)
                     good = okmap.get(ar[-1]['id']) == 'ok'
                     # the Ok value tested false
-                    vals = [c for c in q.conds_before(p, i) if c.get('dty') == 'bool' and c['expr'][0] == 'fieldv'
-                            and c['expr'][3] == 'Continue']
+                    vals = [c for c in q.conds_before(p, i) if c.get('dty') == 'bool' and q.ok_payload_of(p, c['expr']) is not None]
                     good = good and bool(vals) and q.cond_truth(vals[-1]) is False
                 rep.check(good, 'C08-R5', hs.nname, 'become_undead only after attempt_rejoin returned Ok(false)',
                           site=e['span'], construct='undead-guard')
@@ -509,8 +508,7 @@ def r6_reevaluate(ctx, f, rep):
         m = e['args'][1]
         alive = m[0] == 'agg' and q.is_variant(q.agg_field(m, 'state'), 'State', 'Alive')
         # the Ok(bool) it returned tested false
-        vals = [c for c in p.events[i:] if c['kind'] == 'cond' and c.get('dty') == 'bool' and c['expr'][0] == 'fieldv'
-                and c['expr'][3] == 'Continue']
+        vals = [c for c in p.events[i:] if c['kind'] == 'cond' and c.get('dty') == 'bool' and q.ok_payload_of(p, c['expr']) is not None]
         inactive = bool(vals) and q.cond_truth(vals[0]) is False
         rep.check(alive and inactive, 'C08-R6', b.nname, 'exception (ii): return without re-evaluation only after applying '
                   'State::Alive that reported the sender inactive', site=e['span'], construct='inactive-sender-exception')
